@@ -106,6 +106,35 @@ def proof_stage(prop, plan, tier, registry):
             rep.tb = traceback.format_exc()
         rep.tasks = dict(tasks)
         reports.append(rep)
+    # obligations decided by other back ends (sympy / AST), already carrying their verdict
+    for prov in plan.get("extra", []):
+        from pyvc.verify import FuncReport
+        mod, fn = prov.rsplit(".", 1)
+        try:
+            obls = getattr(importlib.import_module(mod), fn)(index)
+        except Exception as e:
+            rep = FuncReport(prov)
+            rep.error = f"internal: {type(e).__name__}: {e}"
+            rep.tasks = {}
+            reports.append(rep)
+            continue
+        groups = {}
+        for o in obls:
+            groups.setdefault(o.get("function", prov), []).append(o)
+        for q, os_ in groups.items():
+            rep = FuncReport(q)
+            fi = index.get(q)
+            if fi is not None:
+                rep.sha, rep.lines, rep.file = fi.sha, fi.lines, fi.file
+            rep.paths = rep.returns = 1
+            rep.obligations = os_
+            rep.presolved = True
+            rep.tasks = {}
+            rep.trusted.add("sympy 1.14 (simplification to zero) for derivative obligations" if "derivative" in os_[0]["name"] else "AST pattern obligations (no solver)")
+            for o in os_:
+                if o["status"] in ("missing", "unsupported"):
+                    rep.aborts.append(dict(case="-", reason=o.get("solver_output") or o["status"], line=o.get("line")))
+            reports.append(rep)
     # one pool over all functions
     from pyvc.solve import solve_all
     jobs, seen = [], set()
@@ -121,6 +150,8 @@ def proof_stage(prop, plan, tier, registry):
                 jobs.append((name, smt, timeout_ms, True))
     res = solve_all(jobs)
     for rep in reports:
+        if getattr(rep, "presolved", False):
+            continue
         for o in rep.obligations:
             r = res.get(o["name"])
             if r is None:
@@ -168,7 +199,7 @@ def run_property(prop, tier, seed):
     os.makedirs(REPLAY_DIR, exist_ok=True)
 
     # ---- proof stage
-    reports, proof_wall = proof_stage(prop, plan, tier, registry) if plan.get("functions") else ([], 0.0)
+    reports, proof_wall = proof_stage(prop, plan, tier, registry) if (plan.get("functions") or plan.get("extra")) else ([], 0.0)
     n_obl = n_dis = 0
     solver_time = 0.0
     backends = {}
@@ -300,7 +331,10 @@ def run_property(prop, tier, seed):
         samples += [dict(check=r["check"], case=s) for s in r["samples"][:1]]
     samples += [dict(obligation=n) for n in sample_obls[:4]]
     proved_all = n_obl > 0 and n_dis == n_obl and errors == 0 and undecided == 0
-    level = plan.get("level", "proof") if proved_all else "other"
+    if plan.get("level") == "exploration":
+        level = "exploration" if (errors == 0 and undecided == 0) else "other"
+    else:
+        level = plan.get("level", "proof") if proved_all else "other"
     used_contracts = sorted(t for t in trusted if t.startswith("contract:"))
     verified_here = {f"contract:{r.qual}" for r in reports if not r.error and all(o["status"] in ("discharged", "covered") for o in r.obligations)}
     trusted_base = sorted(t for t in trusted if not t.startswith("contract:"))
@@ -364,7 +398,7 @@ def rebaseline(props):
     base = json.load(open(BASELINE_PATH)) if os.path.exists(BASELINE_PATH) else {}
     for prop in props or list(PLAN):
         plan = PLAN[prop]
-        if not plan.get("functions"):
+        if not (plan.get("functions") or plan.get("extra")):
             continue
         reports, _ = proof_stage(prop, plan, "quick", registry)
         for rep in reports:
